@@ -1057,7 +1057,7 @@ func c33common(a, b []string) int {
 
 func c33cases(tier string) int {
 	if tier == "thorough" {
-		return 200000
+		return 100000
 	}
 	return 4000
 }
